@@ -41,6 +41,27 @@ def _helper_pieces(x):
     return None
 
 
+_DEPTH = [0]
+
+
+def _emit_helper(x):
+    """the private free function of the generator that a call names, if it is one that writes into the writer passed to it"""
+    import prectables as _pt
+    idx = getattr(_pt, "INDEX", None)
+    if idx is None or x["f"].get("k") != "path" or len(x["f"]["segs"]) != 1:
+        return None
+    nm = x["f"]["segs"][0]
+    cands = [g for g in idx.fns if g.name == nm and g.body and not g.base and "proc_gen" in g.module and not g.name.startswith("to_proc_gen") and g.name != "write_attribute_value"]
+    if len(cands) != 1:
+        return None
+    g = cands[0]
+    if g.node.get("vis") or not any(sir.write_fmt_call(y) or (y.get("k") == "mcall" and y["m"] in EMIT_METHODS) for y in sir.walk(g.body)):
+        return None
+    if any(y.get("k") == "call" and y["f"].get("k") == "path" and y["f"]["segs"] == [nm] for y in sir.walk(g.body)):
+        return None   # recursive
+    return g
+
+
 def _collect_env(n):
     """locals that only hold pre-formatted text (`let flags = format!(..)`) and local closures: both are inlined where they are used,
     so that hoisting a fragment into a local or into a local closure does not change the token sequence"""
@@ -234,6 +255,23 @@ def _lin(n, out):
             pn = [b for pp in clo["params"] for b, _p in sir.pat_bindings(pp)]
             amap = {pn[i]: sir.expr_str(sir.strip_ref(a)) for i, a in enumerate(n["args"]) if i < len(pn)}
             out.extend(_rename(sub, amap))
+            return
+        hf = _emit_helper(n)
+        if hf is not None and _DEPTH[0] < 2:
+            # a private free function that writes a fragment into the writer it is given (an extracted piece of an emitter): its
+            # body stands where it is called, its parameters stand for the arguments
+            for a in n["args"]:
+                if a.get("k") != "closure":
+                    _lin(a, out)
+            _DEPTH[0] += 1
+            try:
+                sub = []
+                _lin(hf.body, sub)
+            finally:
+                _DEPTH[0] -= 1
+            pn = [x for x in hf.param_names()]
+            amap = {pn[i]: sir.expr_str(sir.strip_ref(a)) for i, a in enumerate(n["args"]) if i < len(pn) and pn[i]}
+            out.extend(_rename(merge(sub), amap))
             return
         for a in n["args"]:
             if a.get("k") != "closure":
